@@ -132,6 +132,35 @@ def check_unary(spec, stats):
         stats.fail('C09/law/roundtrip-sources', case, 'apply_params(s, *sort_params(s, sources=True)) differs for s=(%s)' % desc)
 
 
+def check_unary_annotated(spec, stats):
+    """The same laws on a fully annotated copy (every parameter incl. the stars, and the return value),
+    compared with the signatures' own == (which covers annotations, upgraded annotations and the return annotation)."""
+    from sigtools import signatures
+    aspec = tuple(p._replace(ann=repr('ann-' + p.name)) for p in spec)
+    src = 'def f0(%s) -> "RET":\n    return 0\n' % universe.spec_text(aspec)
+    g = realfn.load(src, register=False)
+    s = signatures.signature(g['f0'])
+    desc = universe.spec_text(aspec) + ' -> "RET"'
+    case = {'op': 'unary-annotated', 'specs': [list(map(list, spec))]}
+    stats.case(4)
+    stats.cls('unary-annotated')
+    for label, args in (('merge(s)', (s,)), ('merge(s,s)', (s, s))):
+        r, exc = merge_sigs(*args)
+        if r is None or not (r == s) or str(r) != str(s) or str(r.evaluated()) != str(s.evaluated()):
+            stats.fail('C09/law/annotated/%s' % label, case, '%s for s=(%s) gave %s (== s: %s)' % (label, desc, r if r is not None else exc, r == s if r is not None else None))
+    bare = realfn.sig_of((Par('args', VP), Par('kwargs', VK)), 'bare')
+    for label, args in (('merge(s,bare)', (s, bare)), ('merge(bare,s)', (bare, s))):
+        r, exc = merge_sigs(*args)
+        if r is None or star_normalised(r) != star_normalised(s):
+            stats.fail('C09/law/annotated/neutral', dict(case, order=label),
+                       '%s for s=(%s) gave %s: parameter annotations must survive a bare (*args, **kwargs)' % (label, desc, r if r is not None else exc))
+    rt = signatures.apply_params(s, *signatures.sort_params(s))
+    if not (rt == s) or str(rt) != str(s) or str(rt.evaluated()) != str(s.evaluated()):
+        stats.fail('C09/law/annotated/roundtrip', case, 'apply_params(s, *sort_params(s)) = %s (evaluated: %s) for s=(%s)' % (rt, rt.evaluated(), desc))
+    if spec:
+        stats.nontriv_enum()
+
+
 def check_triple(specs, stats, enum):
     views = [universe.spec_view(s) for s in specs]
     if not cpbind.role_consistent(views):
@@ -178,6 +207,7 @@ def shard_unary(arg):
     st = Stats()
     for s in specs:
         check_unary(s, st)
+        check_unary_annotated(s, st)
     return st
 
 
@@ -296,7 +326,9 @@ def run(ctx):
 
 def replay(case, stats):
     specs = tuple(tuple(Par(*p) for p in s) for s in case['specs'])
-    if case['op'] == 'unary':
+    if case['op'] == 'unary-annotated':
+        check_unary_annotated(specs[0], stats)
+    elif case['op'] == 'unary':
         check_unary(specs[0], stats)
     else:
         check_hyp(specs, stats)
